@@ -357,3 +357,29 @@ Proof.
     subst ps'. apply (Hpure e ps Hin); assumption. }
   intros x y Hx Hy. rewrite (Hlead x Hx), (Hlead y Hy). reflexivity.
 Qed.
+
+(* ---------- Percolator flanks: "x.BODY.y" is recognised whatever x and y are, and stripping gives BODY back ---------- *)
+Lemma has_flanks_spec (a b : N) (body : str) : has_flanks (a :: 46%N :: body ++ [46%N; b]) = true.
+Proof.
+  unfold has_flanks. apply andb_true_intro. split; [apply andb_true_intro; split|].
+  - apply Nat.leb_le. cbn [length]. rewrite app_length. cbn [length]. lia.
+  - reflexivity.
+  - change (a :: 46%N :: body ++ [46%N; b]) with ([a; 46%N] ++ body ++ [46%N; b]).
+    rewrite !rev_app_distr. reflexivity.
+Qed.
+
+Lemma strip_flanks_spec (a b : N) (body : str) : strip_flanks (a :: 46%N :: body ++ [46%N; b]) = body.
+Proof.
+  unfold strip_flanks. cbn [skipn length]. rewrite app_length. cbn [length].
+  replace (S (S (length body + 2)) - 4)%nat with (length body + 0)%nat by lia.
+  rewrite firstn_app_2. cbn [firstn]. apply app_nil_r.
+Qed.
+
+(* an unflanked peptide of residues (no dot at all) is left alone *)
+Lemma no_dot_no_flanks (s : str) : ~ In 46%N s -> has_flanks s = false.
+Proof.
+  intros H. unfold has_flanks. destruct s as [|x [|c r]]; [reflexivity | reflexivity |].
+  assert (Hc : N.eqb c 46%N = false).
+  { apply N.eqb_neq. intros ->. apply H. right. left. reflexivity. }
+  cbn [second_is_dot]. rewrite Hc. rewrite andb_false_r. reflexivity.
+Qed.
